@@ -339,11 +339,41 @@ func (s *RStack) teardown() {
 	}
 	middleware.Reset()
 	if s.dir != "" {
+		// The resolver's start-up goroutine (priming, then the RFC 5011
+		// refresh) writes <dir>/trust-anchor.db a few milliseconds after
+		// Setup; a removal racing with that write leaves the directory
+		// behind. Remove now, remember the path, and re-remove the most
+		// recent ones at every later teardown (SweepTemp does all of them).
 		_ = os.RemoveAll(s.dir)
+		liveMu.Lock()
+		oldDirs = append(oldDirs, s.dir)
+		recent := oldDirs
+		if len(recent) > 24 {
+			recent = recent[len(recent)-24:]
+		}
+		recent = append([]string(nil), recent...)
+		liveMu.Unlock()
+		for _, d := range recent {
+			_ = os.RemoveAll(d)
+		}
 	}
 	liveMu.Lock()
 	if live == s {
 		live = nil
 	}
 	liveMu.Unlock()
+}
+
+var oldDirs []string
+
+// SweepTemp removes again every temp directory of closed stacks (a late
+// background write of a closed resolver can leave one behind). Harnesses call
+// it once before exiting (after a short pause).
+func SweepTemp() {
+	liveMu.Lock()
+	dirs := append([]string(nil), oldDirs...)
+	liveMu.Unlock()
+	for _, d := range dirs {
+		_ = os.RemoveAll(d)
+	}
 }
